@@ -404,28 +404,35 @@ func (r *relay) header(
 	streamEnded bool,
 	priority http2.PriorityParam,
 ) error {
-	encoded, err := r.encodeFull(headers)
-	if err != nil {
-		return fmt.Errorf("encoding headers %v: %w", headers, err)
-	}
-
-	maxPayloadLength := atomic.LoadUint32(&r.maxFrameSize)
-	// Padding is not implemented because the extra security is not needed for a development proxy.
-	// If it were used, a single padding length octet should be deducted from the max header fragment
-	// length.
-	maxHeaderFragmentLength := maxPayloadLength
-	if !priority.IsZero() {
-		maxHeaderFragmentLength -= headersPriorityMetadataLength
-	}
-	chunks := splitIntoChunks(int(maxHeaderFragmentLength), int(maxPayloadLength), encoded)
-
+	// The header block is encoded when the frame is written to the wire, not here: the frame may
+	// wait in the stream's queue behind flow-controlled DATA while header blocks of other streams
+	// overtake it, and HPACK requires blocks to be decoded in the order they were encoded.
 	r.enqueueFrame(&queuedHeaderFrame{
 		streamID:  id,
 		endStream: streamEnded,
 		priority:  priority,
-		chunks:    chunks,
+		headers:   headers,
+		relay:     r,
 	})
 	return nil
+}
+
+// encodeChunks encodes the headers and splits the header block into chunks that respect the
+// current frame size limit, firstChunkOverhead is the size of the metadata in the first frame.
+func (r *relay) encodeChunks(headers []hpack.HeaderField, firstChunkOverhead int) ([][]byte, error) {
+	r.encoderMu.Lock()
+	defer r.encoderMu.Unlock()
+
+	encoded, err := r.encodeFullLocked(headers)
+	if err != nil {
+		return nil, fmt.Errorf("encoding headers %v: %w", headers, err)
+	}
+
+	maxPayloadLength := int(atomic.LoadUint32(&r.maxFrameSize))
+	// Padding is not implemented because the extra security is not needed for a development proxy.
+	// If it were used, a single padding length octet should be deducted from the max header fragment
+	// length.
+	return splitIntoChunks(maxPayloadLength-firstChunkOverhead, maxPayloadLength, encoded), nil
 }
 
 func (r *relay) priority(id uint32, priority http2.PriorityParam) {
@@ -443,19 +450,11 @@ func (r *relay) rstStream(id uint32, errCode http2.ErrCode) {
 }
 
 func (r *relay) pushPromise(id, promiseID uint32, headers []hpack.HeaderField) error {
-	encoded, err := r.encodeFull(headers)
-	if err != nil {
-		return fmt.Errorf("encoding push promise headers %v: %w", headers, err)
-	}
-
-	maxPayloadLength := atomic.LoadUint32(&r.maxFrameSize)
-	maxHeaderFragmentLength := maxPayloadLength - pushPromiseMetadataLength
-	chunks := splitIntoChunks(int(maxHeaderFragmentLength), int(maxPayloadLength), encoded)
-
 	r.enqueueFrame(&queuedPushPromiseFrame{
 		streamID:  id,
 		promiseID: promiseID,
-		chunks:    chunks,
+		headers:   headers,
+		relay:     r,
 	})
 	return nil
 }
@@ -516,10 +515,9 @@ func (r *relay) decodeFull(data []byte) ([]hpack.HeaderField, error) {
 	return r.decoder.DecodeFull(data)
 }
 
-func (r *relay) encodeFull(headers []hpack.HeaderField) ([]byte, error) {
-	r.encoderMu.Lock()
-	defer r.encoderMu.Unlock()
-
+// encodeFullLocked encodes the headers, the caller must hold encoderMu. The returned slice is
+// valid until the next call.
+func (r *relay) encodeFullLocked(headers []hpack.HeaderField) ([]byte, error) {
 	r.reencoded.Reset()
 	var buf bytes.Buffer
 	for _, h := range headers {
